@@ -348,7 +348,60 @@ func genC53(seed uint64, tier string) *Scenario {
 	return s
 }
 
+// ---- C29we: the channel's use of the idle manager (clientconn.go) ----
+
+// Idle timeouts of nanoseconds to seconds with bursts of RPCs separated by
+// gaps, plus explicit Connect calls: the channel enters and leaves idle mode
+// many times while RPCs start, run and end. Entering idle closes every
+// transport, so an RPC that is between start and end while the channel goes
+// idle fails; in these fault-free runs every RPC must end with exactly its
+// handler's status, by its deadline.
+func genC29we(seed uint64, tier string) *Scenario {
+	r, s := genBase(seed, tier)
+	s.Oracles = []string{"status_exact", "status_error", "deadline"}
+	s.Client.DisableRetry = true
+	scale := int64(core.Pick(r, 1, 1000, 1000000, 100000000))
+	s.Client.IdleNs = int64(r.Range(1, 30)) * scale
+	// while an RPC is active the idle timer re-arms every IdleNs: keep the
+	// number of firings per RPC bounded when the network itself is slow
+	if slow := (s.Net.LatencyNs + s.Net.StallNs) / 20; s.Client.IdleNs < slow {
+		s.Client.IdleNs = slow
+	}
+	n := r.Range(1, 8)
+	if tier == "thorough" {
+		n = r.Range(2, 16)
+	}
+	t := int64(0)
+	for i := 0; i < n; i++ {
+		if r.Chance(1, 2) {
+			t += int64(r.Range(0, 60)) * scale // gap around the idle timeout
+		}
+		rpc := RPC{ID: uint32(i + 1), StartNs: t}
+		var srv []Op
+		if r.Chance(1, 2) {
+			rpc.Client = append(rpc.Client, Op{Op: "send", N: r.Intn(3000)})
+			srv = append(srv, Op{Op: "recv"})
+		}
+		if r.Chance(1, 2) {
+			// the RPC stays active across one or more idle timeouts
+			srv = append(srv, Op{Op: "sleep", Ns: int64(r.Range(0, 90)) * scale})
+		}
+		srv = append(srv, Op{Op: "send", N: r.Intn(3000)})
+		if r.Chance(1, 4) {
+			srv = append(srv, Op{Op: "return", Code: r.Range(1, 16), Msg: "scripted"})
+		}
+		rpc.Client = append(rpc.Client, Op{Op: "close_send"}, Op{Op: "recv_all"})
+		rpc.Server = [][]Op{srv}
+		s.RPCs = append(s.RPCs, rpc)
+	}
+	for k := r.Intn(4); k > 0; k-- {
+		s.Actions = append(s.Actions, Action{AtNs: int64(r.Range(0, 200)) * scale, Kind: "connect"})
+	}
+	return s
+}
+
 func init() {
+	core.Register("C29we", genC29we, Run)
 	core.Register("C09", genC09, Run)
 	core.Register("C10", genC10, Run)
 	core.Register("C22", genC22, Run)
